@@ -539,6 +539,8 @@ var pool = []comp{
 	{"uni20AC0308", "uni-form"},
 	{"uni0041", "uni-form"},
 	{"uniD801DC0C", "uni-form-surrogates"},
+	{"uni0041D800", "uni-form-valid-group-then-surrogate"},
+	{"uni0042004g", "uni-form-valid-group-then-non-hex"},
 	{"uni20ac", "uni-form-lower-case"},
 	{"uni004", "uni-form-wrong-length"},
 	{"u1040C", "u-form"},
